@@ -650,6 +650,6 @@ func TestC15(t *testing.T) {
 	s.Rec.LabelN("boundary_pairs_full_cross_product", 0)
 	s.Rec.Extra("exhaustive", complete && !s.Failed())
 	s.Rec.Extra("exhaustive_subdomain", fmt.Sprintf("in EACH build configuration: full cross product of the %d limb-boundary elements for Add/Sub/Mul (+generic), Butterfly, Cmp, conversions; the same patterns in value space: full cross product for Cmp/Equal/ordering/conversions/Butterfly; every boundary element (both spaces) for all unary operations, Sqrt/Legendre; mulByConstant for all constants; 6 constructed operand pairs per boundary pattern whose Mul / Add / Sub RESULT is that pattern", nb))
-	c15Part.Run(s, hx.PerShard(hx.Pick(200000, 5000000)))
+	c15Part.Run(s, hx.PerShard(hx.Pick(200000, 20000000)))
 	c15Part.RunConcurrent(s, 8, hx.Pick(3000, 40000))
 }
